@@ -22,6 +22,46 @@ def sig_key(fx, fid):
     return "%s | (%s) -> %s" % (owner, ", ".join(f.get("inputs") or []), f.get("output"))
 
 
+def confirmed_for(fx, conf, fid):
+    """confirmed operations of a function: by owner + signature, or, when a private function's signature changed, by the
+    signature the pinned tree has under the same id"""
+    key = sig_key(fx, fid)
+    if key in conf:
+        return conf[key]
+    from .core import facts as _facts
+    ref = _facts._fnref()
+    rid = fx.root_fn(fid)
+    if rid in ref and not fx.fns[rid].get("exported"):
+        return conf.get(ref[rid], {})
+    return {}
+
+
+_CG = {}
+
+
+def neighbour_shortfall(fx, conf, fid, kind):
+    from .core import callgraph
+    cg = _CG.get(id(fx))
+    if cg is None:
+        cg = _CG[id(fx)] = callgraph.CallGraph(fx)
+    rid = fx.root_fn(fid)
+    mine = {f for f in fx.fns if fx.root_fn(f) == rid}
+    neigh = set()
+    for f in mine:
+        neigh |= {fx.root_fn(t) for t in cg.edges.get(f, ()) if t in fx.fns}
+    for g, es in cg.edges.items():
+        if es & mine:
+            neigh.add(fx.root_fn(g))
+    neigh.discard(rid)
+    short = 0
+    for g in sorted(neigh):
+        a = confirmed_for(fx, conf, g).get(kind, 0)
+        a = a.get("count", 0) if isinstance(a, dict) else a
+        have = len([1 for k, _ in lossy_casts(fx, g) if k == kind])
+        short += max(0, a - have)
+    return short
+
+
 def lossy_calls(fx, fid):
     """[(kind, line)] of lossy operations in the body of fid and of its closures"""
     out = []
@@ -128,8 +168,7 @@ def check(ctx, rep, P, walked):
         calls = calls + [("early-exit", None)] * ee
         if not calls:
             continue
-        key = sig_key(fx, fid)
-        allowed = conf.get(key, {})
+        allowed = confirmed_for(fx, conf, fid)
         counts = {}
         for kind, line in calls:
             counts[kind] = counts.get(kind, 0) + 1
@@ -141,6 +180,10 @@ def check(ctx, rep, P, walked):
             n_sites += n
             n -= len(fused.get(kind, ()))       # modelled element by element by the engine (iterator fusion)
             lim = allowed.get(kind, {}).get("count", 0) if isinstance(allowed.get(kind), dict) else allowed.get(kind, 0)
+            if n > lim and kind.startswith("cast "):
+                # the same conversion moved across a call edge (a caller now computes what its callee computed, or the
+                # reverse): an excess here is covered by an equal shortfall in the functions it calls / that call it
+                lim += neighbour_shortfall(fx, conf, fid, kind)
             lines = [l for k, l in calls if k == kind]
             f = fx.fns[fid]
             rep.obligation(n <= lim, "%s/RA.1/unreviewed-lossy-adaptor/%s/%s" % (P, fid.split("::")[-1] if not fid.startswith("<") else fid, kind),
